@@ -98,6 +98,16 @@ func init() {
 				}
 			}
 			cc := ConnCase{Steps: steps, Cuts: genCuts(r)}
+			if r.Chance(1, 3) {
+				// the peer keeps the connection open and stays silent after its last
+				// bytes (which may end in the middle of a message): a refused
+				// connection must be closed by the server, not by the client
+				cc.NoEOF = true
+				if r.Bool() {
+					last := &cc.Steps[len(cc.Steps)-1]
+					last.Msgs = append(last.Msgs, pgwire.FMsg{K: "Q", S1: "unfinished " + r.Ident(20), Cut: intp(r.Range(1, 9))})
+				}
+			}
 			if r.Chance(1, 6) {
 				cc.Faults = []Fault{{Kind: "write-err", At: r.Range(0, 3), Bytes: r.Intn(4)}}
 			}
@@ -160,6 +170,11 @@ func init() {
 				if !accepted {
 					if len(cs.cc.FlatMsgs()) > 2 {
 						nt = true
+					}
+					if cs.cc.NoEOF && cs.Started && cs.ClosedBefore == 0 && valSeq >= 0 {
+						// (only once the verdict is in: a peer that went silent in the
+						// middle of its password message is legitimately waited for)
+						add("refused-connection-left-open", "the credentials were not accepted but the server keeps the connection open until the client goes away")
 					}
 					// R2: no session artefacts at all
 					if strings.ContainsAny(kinds, "SZ") {
